@@ -1821,7 +1821,7 @@ fn main() {
         // tmo cases are spread among the wake cases
         let every = n_wake / n_tmo;
         // on a crowded machine the quick tier stops generating after a while (coverage shrinks, the verdict does not change)
-        let wake_until = Instant::now() + if args.thorough() { Duration::from_secs(600) } else { Duration::from_secs(24) };
+        let wake_until = Instant::now() + if args.thorough() { Duration::from_secs(600) } else { Duration::from_secs(16) };
         for i in 0..n_wake {
             if i % 64 == 0 && Instant::now() > wake_until {
                 out.count("wake.time_budget_reached");
@@ -1844,7 +1844,7 @@ fn main() {
             }
         }
         // (g) runs of identical events, (k) knob pairs: scripted single waits
-        let scripted_until = Instant::now() + if args.thorough() { Duration::from_secs(240) } else { Duration::from_secs(14) };
+        let scripted_until = Instant::now() + if args.thorough() { Duration::from_secs(240) } else { Duration::from_secs(9) };
         let mut scripted: Vec<(&str, Fixed)> = gen_pairs().into_iter().map(|f| ("pairs", f)).collect();
         scripted.extend(gen_bursts(args.thorough()).into_iter().map(|f| ("burst", f)));
         rng.shuffle(&mut scripted);
